@@ -90,7 +90,11 @@ namespace rkcommon {
             RKCOMMON_VERIF_POINT("L_pub", l.get());
             l->insideLoopBody = true;
             RKCOMMON_VERIF_POINT("L_body", l.get());
-            fcn();
+            // re-check after publishing insideLoopBody: stop() may have cleared
+            // the flag and seen insideLoopBody == false in between, in which
+            // case it has already returned and the body must not run
+            if (l->shouldBeRunning)
+              fcn();
             RKCOMMON_VERIF_POINT("L_clr", l.get());
             l->insideLoopBody = false;
           } else {
